@@ -318,6 +318,37 @@ def execute(run, cases, tag="b0"):
     fac.cleanup()
 
 
+def deprecated_input_cases(run):
+    """`@deprecated` on input fields and @oneOf members (legal since the 2021 spec): the deprecation strategies are about response
+    fields; whatever they are set to, every declared input field stays expressible and goes on the wire (explicit null when
+    absent, skip-none off)"""
+    from ..model import Schema, T, NN
+    out = []
+    for si, strat in enumerate(["deny", "warn", "allow", None]):
+        s = Schema()
+        s.add("Range", {"kind": "input", "one_of": True, "fields": [["bucket", T("Int")], ["exact", T("Int")]]})
+        s.add("Filter", {"kind": "input", "one_of": False, "fields": [["legacyId", T("ID")], ["name", T("String")], ["range", T("Range")]]})
+        s.add("Query", {"kind": "object", "implements": [], "fields": [{"name": "x", "type": T("Int"), "args": [["f", T("Filter")]], "deprecated": None}]})
+        op = {"kind": "query", "name": "Find", "vars": [{"name": "f", "type": T("Filter"), "default": None}], "sel": [["field", None, "x", "(f: $f)", None]]}
+        doc = {"operations": [op], "fragments": []}
+        opts = {"skip_none": False}
+        if strat:
+            opts["deprecation"] = strat
+        c = C.make_case("dep%d" % si, s, doc, run.rng, options=opts, fmt="sdl")
+        c["schema_text"] = ("input Range @oneOf { bucket: Int @deprecated(reason: \"use exact\") exact: Int }\n"
+                            "input Filter { legacyId: ID @deprecated(reason: \"use name\") name: String range: Range }\n"
+                            "type Query { x(f: Filter): Int }\ndirective @oneOf on INPUT_OBJECT\n")
+        c["schema_ext"] = "graphql"
+        vecs = []
+        for ai, asg in enumerate([{"f": {"legacyId": "7", "name": "n", "range": {"bucket": 3}}}, {"f": {"legacyId": "8", "name": None, "range": {"exact": 1}}}, {"f": {"name": "only"}}]):
+            exp = {"f": {"legacyId": asg["f"].get("legacyId"), "name": asg["f"].get("name"), "range": asg["f"].get("range")}}
+            vecs.append({"id": "a%d" % ai, "kind": "vars", "target": "Find", "input": asg, "expect": {"variables": exp}})
+        c["vectors"] = vecs
+        c["features"] = ["deprecated-input-field"]
+        out.append(c)
+    return out
+
+
 def main(run):
     run.rule = RULE
     run.assumptions = ["valid assignment = output of vlib/gen_vars.py ValueGen (IDs as strings, Int within 32 bits, custom scalars as strings)",
@@ -332,6 +363,7 @@ def main(run):
         cs = gen_cases(run, n, prefix="b%dc" % bi)
         if bi == 0:
             cs += hazards.cases_for(run, "C04")
+            cs += deprecated_input_cases(run)
         execute(run, cs, tag="b%d" % bi)
         done += n
         bi += 1
